@@ -1,6 +1,8 @@
 (** Executable model of the buddy allocator of one device:
     amd/driver/internal/devicebuddymemstate.go and buddystructures.go
-    (4 KiB pages are hard-wired in the Go code).  Definitions only.
+    (4 KiB pages are hard-wired in the Go code), after the repair of
+    allocateMultiplePages (the parent's merge bit is toggled for every block
+    taken from a free list).  Definitions only.
     [None] = the Go code panics. *)
 From Coq Require Import List NArith Bool Arith.
 From RecordUpdate Require Import RecordSet.
@@ -17,10 +19,11 @@ Record buddy := mkBuddy {
   b_merge : list N;                (* bfMergeList: indices of the set bits *)
   b_track : list (N * N);          (* blockTracking: page address -> tracker id *)
   b_trackers : list (N * (N * N)); (* tracker id -> (initialAddr, numOfPages left) *)
-  b_next : N                       (* fresh tracker ids (Go: pointer identity) *)
+  b_next : N;                      (* fresh tracker ids (Go: pointer identity) *)
+  b_blocks : list (N * N * N)      (* ghost, never read: allocated blocks (address, level, tracker id) *)
 }.
 #[export] Instance eta_buddy : Settable _ :=
-  settable! mkBuddy <b_base; b_size; b_free; b_split; b_merge; b_track; b_trackers; b_next>.
+  settable! mkBuddy <b_base; b_size; b_free; b_split; b_merge; b_track; b_trackers; b_next; b_blocks>.
 
 (** smallest o >= from with 2^o >= x *)
 Fixpoint order_from (fuel : nat) (o x : N) : N :=
@@ -32,7 +35,7 @@ Fixpoint order_from (fuel : nat) (o x : N) : N :=
 (** setStorageSize + setInitialAddress *)
 Definition binit (base size : N) : buddy :=
   let order := order_from 64 12 size - 12 in
-  mkBuddy base size ([base] :: repeat [] (N.to_nat order)) [] [] [] [] 0.
+  mkBuddy base size ([base] :: repeat [] (N.to_nat order)) [] [] [] [] 0 [].
 
 Definition toggle (i : N) (l : list N) : list N :=
   if existsb (N.eqb i) l then filter (fun j => negb (j =? i)) l else i :: l.
@@ -101,7 +104,8 @@ Definition balloc (n : N) (b : buddy) : option (list N * buddy) :=
       let pages := map (fun j => block + N.of_nat j * 4096) (seq 0 (N.to_nat n)) in
       Some (pages, b3 <| b_track := fold_left (fun t p => (p, b_next b3) :: filter (fun e => negb (fst e =? p)) t) pages (b_track b3) |>
                       <| b_trackers := (b_next b3, (block, n)) :: b_trackers b3 |>
-                      <| b_next := b_next b3 + 1 |>)
+                      <| b_next := b_next b3 + 1 |>
+                      <| b_blocks := (block, level, b_next b3) :: b_blocks b3 |>)
     end
   end.
 
@@ -113,6 +117,10 @@ Fixpoint level_of_block (fuel : nat) (b : buddy) (p n : N) : N :=
            else if bit (index_of_block b p (n - 1)) (b_split b) then n
            else level_of_block f b p (n - 1)
   end.
+
+(** removeByValue: removes the first occurrence *)
+Fixpoint remove_first (x : N) (l : list N) : list N :=
+  match l with [] => [] | y :: r => if y =? x then r else y :: remove_first x r end.
 
 (** freeBlock *)
 Fixpoint free_block (fuel : nat) (b : buddy) (p level : N) : buddy :=
@@ -126,9 +134,7 @@ Fixpoint free_block (fuel : nat) (b : buddy) (p level : N) : buddy :=
       if negb (bit idx (b_merge b1)) then
         let b2 := b1 <| b_split := toggle idx (b_split b1) |> in
         let bud := buddy_of b2 p level in
-        (* removeByValue removes the first occurrence *)
-        let fix rm (l : list N) := match l with [] => [] | x :: r => if x =? bud then r else x :: rm r end in
-        let b3 := set_level b2 level (rm (get_level b2 level)) in
+        let b3 := set_level b2 level (remove_first bud (get_level b2 level)) in
         free_block f b3 (if bud <? p then bud else p) (level - 1)
       else push_level b1 level p
   end.
@@ -147,7 +153,9 @@ Definition bfree_page (p : N) (b : buddy) : buddy :=
     | Some (init0, cnt) =>
       let cnt1 := cnt - 1 in
       let b2 := b1 <| b_trackers := (id, (init0, cnt1)) :: filter (fun e => negb (fst e =? id)) (b_trackers b1) |> in
-      if cnt1 =? 0 then free_block (length (b_free b2)) b2 init0 (level_of_block (length (b_free b2)) b2 init0 (levels b2))
+      if cnt1 =? 0 then
+        let b3 := b2 <| b_blocks := filter (fun e => negb (snd e =? id)) (b_blocks b2) |> in
+        free_block (length (b_free b3)) b3 init0 (level_of_block (length (b_free b3)) b3 init0 (levels b3))
       else b2
     end
   end.
